@@ -44,6 +44,15 @@ func unitC16(e common.Env, p *common.Part) {
 	if !e.Mine(0) {
 		return
 	}
+	if e.Property == "C10" {
+		// under C10 only the survival of the acceptor and of the service is judged (a crash kills the child); attribution is C16's subject
+		p.Rule = "the hostile handshake catalogue of C16 (about 270 handshakes incl. every 4th truncation length, foreign key types, garbage) against a real listener: the accepting process must survive and honest traffic continue"
+	}
+	viol := func(sig, what string, w interface{}) {
+		if e.Property != "C10" { // under C10 only crashes (seen by the parent) count
+			p.Violate(sig, what, w)
+		}
+	}
 	ids := []uint16{1, 2, 3, 5}
 	doms := []string{"dom", "dom", "other", "dom"}
 	env, err := newNetEnv(ids, doms)
@@ -286,7 +295,7 @@ func unitC16(e common.Env, p *common.Part) {
 		if bytes.HasPrefix(m.Data, []byte("MARK|honest|")) {
 			honestGot++
 			if m.From != 5 || m.Domain != "dom" {
-				p.Violate("misattributed/honest", fmt.Sprintf("an honest message of node 5 was attributed to node %d in domain %q", m.From, m.Domain), nil)
+				viol("misattributed/honest", fmt.Sprintf("an honest message of node 5 was attributed to node %d in domain %q", m.From, m.Domain), nil)
 			}
 		}
 	}
@@ -309,17 +318,17 @@ func unitC16(e common.Env, p *common.Part) {
 		if s.c.Entitled == 0xffff {
 			p.Count("hostile_handshakes", 1)
 			if len(hits) > 0 {
-				p.Violate("attributed/"+s.c.Field+"/"+shortMut(s.c.Mutation), fmt.Sprintf("a message sent after a handshake with %s = %s was attributed to node %d in domain %q", s.c.Field, s.c.Mutation, hits[0].From, hits[0].Domain), wit)
+				viol("attributed/"+s.c.Field+"/"+shortMut(s.c.Mutation), fmt.Sprintf("a message sent after a handshake with %s = %s was attributed to node %d in domain %q", s.c.Field, s.c.Mutation, hits[0].From, hits[0].Domain), wit)
 			}
 		} else {
 			if len(hits) == 0 {
 				if s.c.Raw != nil && s.c.Field == "none" {
 					selfCheckOK = false
 				} else if s.c.Field == "none" {
-					p.Violate("valid-handshake-rejected", "a message sent after a valid handshake ("+s.c.Mutation+") never arrived", wit)
+					viol("valid-handshake-rejected", "a message sent after a valid handshake ("+s.c.Mutation+") never arrived", wit)
 				}
 			} else if hits[0].From != s.c.Entitled || hits[0].Domain != s.c.EntDom {
-				p.Violate("misattributed/"+s.c.Field, fmt.Sprintf("%s: attributed to node %d in domain %q, entitled is node %d in %q", s.c.Mutation, hits[0].From, hits[0].Domain, s.c.Entitled, s.c.EntDom), wit)
+				viol("misattributed/"+s.c.Field, fmt.Sprintf("%s: attributed to node %d in domain %q, entitled is node %d in %q", s.c.Mutation, hits[0].From, hits[0].Domain, s.c.Entitled, s.c.EntDom), wit)
 			} else {
 				p.Count("valid_handshakes_attributed", 1)
 			}
